@@ -543,6 +543,10 @@ def candidates(t: Tree, results: list[str], R=None) -> list[str]:
                 except OSError:
                     pass
     for r in results:
+        # the kernel resolves at most 40 symbolic links per path (ELOOP); the abstract tree has no such limit, so a result that a
+        # `***` / FOLLOW walk of a cyclic tree reached at that boundary is a runtime artefact, not a candidate (seed-2 soak, C06)
+        if r.count('/') >= 30:
+            continue
         add(r)
         if r.endswith('/') and len(r) > 1:
             add(r.rstrip('/'))
